@@ -555,8 +555,11 @@ def _ghost_fill_only(item, late, n=None):
     return set(found) <= set(correct) and all(idx(p) in late or (n is not None and idx(p) >= n) for p in extra)
 
 
-def check_problems(repo, late=(), n=None):
-    """Repository.check() summarised as a sorted list of problem items ([] when clean)."""
+def check_problems(repo, late=(), n=None, sparse_have=None):
+    """Repository.check() summarised as a sorted list of problem items ([] when clean).
+    sparse_have: for sparse-source universes only, the revisions the repository sees: a text named after
+    a revision the repository does not hold (legitimate there: the source holds texts of revisions
+    that are not ancestors of what was fetched) has per-file parents check() cannot judge."""
     try:
         res = repo.check()
     except BaseException as e:      # noqa: B902 -- a crashing check is a finding, not a driver error
@@ -567,6 +570,10 @@ def check_problems(repo, late=(), n=None):
         if v:
             for it in (sorted(v.items()) if isinstance(v, dict) else sorted(v, key=repr)):
                 if a == "inconsistent_parents" and _ghost_fill_only(it, late, n):
+                    continue
+                if a == "inconsistent_parents" and sparse_have is not None and idx(it[0]) not in sparse_have:
+                    continue
+                if a == "unreferenced_versions" and sparse_have is not None and idx(it[1]) not in sparse_have:
                     continue
                 bad.append("%s %r" % (a, it))
     for a in ("missing_revision_cnt", "missing_inventory_sha_cnt"):
@@ -811,7 +818,12 @@ def content_facts(tpath, stacked, u, tfmt, n, after, src_t, src_tp, src_sha, src
                 for k in repo.signatures.without_fallbacks().keys()}
     so["sig_bad"] = sorted(r for r in local if r not in committed and sigs.get(r) != (sig_text(r) if r % 4 == 1 else None))
     so["dup"] = stored_twice(open_repo(tpath, stacked))
-    chk = check_problems(open_repo(tpath, stacked), set(u["late"]), n)
+    sparse_have = None
+    if u.get("gdef"):
+        rp = open_repo(tpath, stacked)
+        with rp.lock_read():
+            sparse_have = {idx(r) for r in rp.all_revision_ids()}
+    chk = check_problems(open_repo(tpath, stacked), set(u["late"]), n, sparse_have)
     so["check"] = [it for it in chk if it not in src_chk]     # problems the source does not have itself
     so["unreadable"] = _readable_problems(tpath, stacked, u, tfmt, local)
     return so
@@ -916,9 +928,11 @@ def model_term(case):
 
 
 def revs_only(case):
-    """cases compared on revision sets only (model detail DRevs): none any more.  Before /repo be5f5d4 knit
-    targets holding a fillable ghost, before /repo 492ef0d merge commits into a stacked repository were."""
-    return False
+    """cases compared on revision sets only (model detail DRevs): knit (pack-0.92) targets fed from a sparse
+    source.  A knit text record named after a revision that is not copied may be a delta whose compression
+    parent is not referenced by any copied inventory; the sink then copies that parent text too
+    (get_missing_compression_parent_keys -- C06's model, not this one).  Every oracle clause still applies."""
+    return case["tgt_fmt"] != "2a" and bool(case["u"].get("gdef"))
 
 
 def model_obs(case, obs):
